@@ -2,7 +2,7 @@
 
 pub mod iterators;
 
-use super::iterator::collect_pair;
+use super::iterator::{collect_pair, reserved_capacity};
 use crate::{
     error::{unexpected_args, unexpected_args_after_instance},
     prelude::*,
@@ -78,7 +78,7 @@ pub fn make_module() -> KMap {
         [iterable] if iterable.is_iterable() => {
             let iterable = iterable.clone();
             let iterator = ctx.vm.make_iterator(iterable)?;
-            let (size_hint, _) = iterator.size_hint();
+            let size_hint = reserved_capacity(&iterator);
             let mut bytes = Vec::<u8>::with_capacity(size_hint);
 
             for output in iterator.map(collect_pair) {
